@@ -5,6 +5,7 @@ use inkayaku_uci::Score;
 
 pub use crate::engine::heuristic::Heuristic;
 pub use crate::engine::heuristic::simple::SimpleHeuristic;
+pub use crate::engine::heuristic::simple::verif as eval_consts;
 pub use crate::engine::move_order::{MoveOrder, MvvLvaMoveOrder};
 pub use crate::engine::search::{EngineOptions, Search, SearchMessage};
 pub use crate::engine::table::verif::TableHandle;
